@@ -14,7 +14,9 @@
     (`Admissible`).
 
   Glob patterns are gobwas/glob's for the alphabet without `\`, `{`, NUL and non-ASCII bytes: literals, `*`, `**`,
-  `?`, `[list]`, `[!list]`, `[lo-hi]`, `[!lo-hi]`; a pattern that does not compile makes `glob.MustCompile` panic.
+  `?`, `[list]`, `[!list]`, `[lo-hi]`, `[!lo-hi]`. A pattern that does not compile (`glob.Compile` answers an error)
+  makes PSUBSCRIBE and PUBSUB CHANNELS answer the error `invalid glob pattern` with nothing changed, and is a pattern
+  that matches no name for PUNSUBSCRIBE.
 -/
 import SugarModel.Base.Bytes
 import SugarModel.Base.Resp
@@ -97,7 +99,7 @@ def matchTop (ts : List Tok) (s : Bytes) : Bool :=
   | [.rng true _ _], [] => true
   | _, _ => matchT ts s
 
-/-- `glob.MustCompile(p).Match(s)` (false for a pattern that does not compile: the call sites are guarded) -/
+/-- `glob.Compile(p)` then `Match(s)` (false for a pattern that does not compile: the call sites are guarded) -/
 def gmatch (p s : Bytes) : Bool :=
   match parsePat p with
   | some ts => matchTop ts s
@@ -148,20 +150,24 @@ def action (withPat unsub : Bool) : Bytes :=
   | false, true => b "unsubscribe"
   | true, true => b "punsubscribe"
 
-/-- pubsub.go:41 PubSub.Subscribe: the loop over the arguments from position `i`; the Bool says that
-    `glob.MustCompile` panicked (after the earlier arguments took effect) -/
-def subscribeLoop (conn : Nat) (withPat : Bool) : List Bytes → Nat → Table → List Push → Table × List Push × Bool
-  | [], _, t, ps => (t, ps, false)
+def invalidPattern : Bytes := b "invalid glob pattern"
+
+/-- pubsub.go PubSub.Subscribe: the loop over the arguments from position `i` (every pattern compiles when it is
+    reached: `subscribe` below refuses the command beforehand otherwise) -/
+def subscribeLoop (conn : Nat) (withPat : Bool) : List Bytes → Nat → Table → List Push → Table × List Push
+  | [], _, t, ps => (t, ps)
   | n :: r, i, t, ps =>
     if hasName t n then
       subscribeLoop conn withPat r (i + 1) (subFirst conn n t) (ps ++ [.confirm conn (action withPat false) n (i + 1)])
-    else if withPat && !compiles n then (t, ps, true)
     else
       subscribeLoop conn withPat r (i + 1) (t ++ [{ name := n, pat := withPat, subs := [conn] }])
         (ps ++ [.confirm conn (action withPat false) n (i + 1)])
 
+/-- pubsub.go PubSub.Subscribe: PSUBSCRIBE compiles every argument first (`glob.Compile`); if one does not compile
+    the command is refused as a whole — the Bool — with the table untouched and nothing confirmed -/
 def subscribe (conn : Nat) (withPat : Bool) (names : List Bytes) (t : Table) : Table × List Push × Bool :=
-  subscribeLoop conn withPat names 0 t []
+  if withPat && names.any (fun n => !compiles n) then (t, [], true)
+  else ((subscribeLoop conn withPat names 0 t []).1, (subscribeLoop conn withPat names 0 t []).2, false)
 
 /-- walk the table in order; `Channel.Unsubscribe(conn)` on every entry selected by `sel`; the names of the entries
     that the connection actually left, in table order -/
@@ -171,23 +177,23 @@ def unsubWhere (conn : Nat) (sel : Chan → Bool) : Table → Table × List Byte
     let (r', ns) := unsubWhere conn sel r
     if sel c && c.subs.contains conn then ({ c with subs := c.subs.erase conn } :: r', c.name :: ns) else (c :: r', ns)
 
-/-- third pass of PUNSUBSCRIBE: one sweep per argument; stops at the first argument that does not compile -/
-def unsubGlobs (conn : Nat) : List Bytes → Table → List Bytes → Table × List Bytes × Bool
-  | [], t, acc => (t, acc, false)
+/-- third pass of PUNSUBSCRIBE: one sweep per argument; an argument that does not compile is skipped (a pattern
+    that matches no name) -/
+def unsubGlobs (conn : Nat) : List Bytes → Table → List Bytes → Table × List Bytes
+  | [], t, acc => (t, acc)
   | p :: r, t, acc =>
-    if !compiles p then (t, acc, true) else
+    if !compiles p then unsubGlobs conn r t acc else
     let (t', ns) := unsubWhere conn (fun c => (c.pat && c.name == p) || gmatch p c.name) t
     unsubGlobs conn r t' (acc ++ ns)
 
-/-- pubsub.go:94 PubSub.Unsubscribe: new table, names in the order they were recorded (ordinal = position + 1),
-    panicked? -/
-def unsubscribe (conn : Nat) (withPat : Bool) (names : List Bytes) (t : Table) : Table × List Bytes × Bool :=
+/-- pubsub.go PubSub.Unsubscribe: new table, names in the order they were recorded (ordinal = position + 1) -/
+def unsubscribe (conn : Nat) (withPat : Bool) (names : List Bytes) (t : Table) : Table × List Bytes :=
   let (t1, n1) := if names.isEmpty then unsubWhere conn (fun c => c.pat == withPat) t else (t, [])
   let (t2, n2) := unsubWhere conn (fun c => names.contains c.name) t1
   if withPat then
-    let (t3, n3, p) := unsubGlobs conn names t2 []
-    (t3, n1 ++ n2 ++ n3, p)
-  else (t2, n1 ++ n2, false)
+    let (t3, n3) := unsubGlobs conn names t2 []
+    (t3, n1 ++ n2 ++ n3)
+  else (t2, n1 ++ n2)
 
 def Chan.matches (c : Chan) (ch : Bytes) : Bool := if c.pat then gmatch c.name ch else c.name == ch
 
@@ -273,12 +279,13 @@ def parseCmd : List Bytes → Cmd
 def exec (t : Table) (conn : Nat) : Cmd → StepRes
   | .sub withPat args =>
     if args.isEmpty then ⟨t, .err wrongArgs, []⟩ else
-    if conn == 0 then ⟨t, .unmod "subscribe without a connection", []⟩ else
     let r := subscribe conn withPat args t
-    ⟨r.1, if r.2.2 then .panic else .silent, r.2.1⟩
+    if r.2.2 then ⟨t, .err invalidPattern, []⟩ else           -- refused before the connection is looked at
+    if conn == 0 then ⟨t, .unmod "subscribe without a connection", []⟩ else
+    ⟨r.1, .silent, r.2.1⟩
   | .unsub withPat args =>
     let r := unsubscribe conn withPat args t
-    ⟨r.1, if r.2.2 then .panic else .unsubReply (action withPat true) r.2.1, []⟩
+    ⟨r.1, .unsubReply (action withPat true) r.2, []⟩
   | .publish args =>
     match args with
     | [ch, msg] => ⟨publish msg ch t, .reply okReply, []⟩
@@ -291,7 +298,7 @@ def exec (t : Table) (conn : Nat) : Cmd → StepRes
       if s == b "channels" then
         if rest.length > 1 then ⟨t, .err wrongArgs, []⟩ else
         let p := rest.headD []
-        if !p.isEmpty && !compiles p then ⟨t, .panic, []⟩ else ⟨t, .reply (channelsReply p t), []⟩
+        if !p.isEmpty && !compiles p then ⟨t, .err invalidPattern, []⟩ else ⟨t, .reply (channelsReply p t), []⟩
       else if s == b "numpat" then ⟨t, .reply (intReply (numPat t)), []⟩
       else if s == b "numsub" then ⟨t, .reply (numSubReply rest t), []⟩
       else ⟨t, .err (b "command " ++ name ++ b " " ++ sub ++ b " not supported"), []⟩
